@@ -54,6 +54,10 @@ CHECKS = {
                 technique="runtime monitoring of the public decision function and of the dial: exhaustive small-scope host x no-proxy-list space and the 8-variable environment space (each shard process owns its environment), reference decision returning sets of acceptable outcomes",
                 text="All hosts of 1..3 labels over a 5-label alphabet (+ IP literals, mixed case) x all no-proxy lists of <= 2 entries over 10 entry shapes x scheme x proxy configuration, through the builder and through NO_PROXY; all 7^8 assignments of the eight proxy variables in thorough (20 000 sampled in quick); end-to-end sends confirm that the address dialled agrees with for_url.",
                 note="No hook needed. Gray cases (listed in the evidence assumptions) are executed but not judged."),
+    "C10": dict(cat="exploration", design="DESIGN.md §3 C10",
+                technique="runtime monitoring of per-hop wire bytes and dial log in scripted redirect chains (tunnelled hops observed through a live TLS server); per-hop application of the C07 request oracle, the reference proxy decision and cross-hop equality for 307/308",
+                text="Every body kind is sent through redirect chains of 1..4 hops that change host, port, scheme and proxy applicability; on each hop the bytes received by that hop's peer must be one well-formed request for that hop's URL with the caller's headers, a Host of that hop and framing matching the body written on that hop, the address dialled must follow the proxy decision re-evaluated for that hop, and after only 307/308 the method and body bytes must equal the first hop's. One known finding (multipart bodies are one-shot) is listed in known_findings.jsonl.",
+                note="Method/body after 301/302/303 are not compared. Tunnelled hops are generated in one case out of four (TLS handshake cost)."),
 }
 
 NOT_APPLICABLE = {}
